@@ -82,6 +82,61 @@ def isort {α : Type} (le : α → α → Bool) : List α → List α
 every other one returns the same list) -/
 def sortMembers (l : List NS) : List NS := isort memberLe l
 
+/-! ## checking a result against the contract -/
+
+def pairwiseB {α : Type} (le : α → α → Bool) : List α → Bool
+  | [] => true
+  | a :: t => t.all (le a) && pairwiseB le t
+
+/-- does `out` meet the contract of a sort of `inp` for the comparator `le`: a permutation without inversions
+(the driver's `checksorted` op applies it to what the real staking precompile returned) -/
+def meetsSortContract {α : Type} [BEq α] (le : α → α → Bool) (inp out : List α) : Bool :=
+  out.isPerm inp && pairwiseB le out
+
+/-! ## the comparator program on arbitrary records -/
+
+/-- a field value -/
+inductive Val where
+  | n (v : Nat)
+  | s (v : String)
+  deriving DecidableEq, Repr
+
+def Val.cmp : Val → Val → Ordering
+  | .n a, .n b => cmpNat a b
+  | .s a, .s b => cmpStr a b
+  | .n _, .s _ => .lt
+  | .s _, .n _ => .gt
+
+/-- an element of a sorted slice: field name ↦ value, in the field order of the element type (`[("", v)]` for a basic type) -/
+abbrev Rec := List (String × Val)
+
+def fieldOf (r : Rec) (f : String) : Option Val := (r.find? (fun e => e.1 == f)).map (·.2)
+
+def keyCmpR (k : SortKey) (a b : Rec) : Ordering :=
+  match fieldOf a k.field, fieldOf b k.field with
+  | some x, some y => if k.desc then (x.cmp y).swap else x.cmp y
+  | _, _ => .eq
+
+/-- the comparator program, interpreted on arbitrary records -/
+def cmpRec : List SortKey → Rec → Rec → Ordering
+  | [], _, _ => .eq
+  | k :: ks, a, b =>
+    match keyCmpR k a b with
+    | .eq => cmpRec ks a b
+    | o => o
+/-- "not out of order" for the interpreted program: what a sorted result satisfies for every earlier `a` and later `b` -/
+def leRec (keys : List SortKey) (a b : Rec) : Bool := cmpRec keys b a != .lt
+
+/-- the keys cover every field of the element type, and the field names are distinct -/
+def wholeOk (s : SortSite) : Bool :=
+  s.elemFields.all (fun f => s.keys.any (fun k => k.field == f)) && decide s.elemFields.Nodup
+
+/-- a member of an oracle set as a record over the fields of `BridgeValidator` -/
+def memberRec (power : Nat) (addr : String) : Rec := [("Power", .n power), ("ExternalAddress", .s addr)]
+
+/-- `NewOracleSet`'s member order computed from the GENERIC interpreter (the driver's `oracleset` op) -/
+def sortMemberRecs (l : List Rec) : List Rec := isort (leRec oracleSetKeys) l
+
 /-! ## the reviewed sort sites -/
 
 inductive SClass where
